@@ -22,7 +22,7 @@ pub fn prop() -> Prop {
         max_len: 200,
         quick: 6_000,
         thorough: 200_000,
-        rule: "Part A: choice sequence -> thread program: 2-16 threads, each 1-6 operations from {format, format_flat, tree_format(true|false), diagnostic_annotated, hex, register_tags, known-value lookup by name / by value through KNOWN_VALUES, function / parameter name lookup through GLOBAL_FUNCTIONS / GLOBAL_PARAMETERS, dcbor tag-name lookup} on 1-4 generated envelopes (known values, tagged leaves, dates, expressions, requests / responses, elided / encrypted / compressed parts), each operation preceded by a generated busy-wait of 0-50 us, all threads released by one barrier; EVERY CASE RUNS IN ITS OWN CHILD PROCESS, so all threads race on first-use initialisation (a second class registers tags before the barrier). oracle: the child exits within the watchdog, every thread joins without panic (a poisoned lock shows up as a panic of a later caller), and every result equals the text the same call returns alone, computed in two reference child processes (never-registered / registered-first): equal to the unregistered reference if the program has no register_tags, to the registered one if registration completed before the barrier, to either if a register_tags is racing. Part B (separate build with bc-envelope/multithreaded): a generated envelope is shared by 2-16 threads which compute digest, bytes, structural digest, element count, format and tree format and clone/drop sub-envelopes; all must equal the single-thread values. non-trivial: >=3 threads with >=2 distinct operation kinds; distinct by FNV-64 of the program; after a closing barrier each thread repeats one formatting call, which must equal the reference of the final registry state exactly; envelopes may hold array / map leaves whose elements are tagged values with summarizers (panicking date, key bundles, custom tag); one format call in four builds its envelope in place from typed values at the moment of the call",
+        rule: "Part A: choice sequence -> thread program: 2-16 threads, each 1-6 operations from {format, format_flat, tree_format(true|false), diagnostic_annotated, hex, register_tags, known-value lookup by name / by value through KNOWN_VALUES, function / parameter name lookup through GLOBAL_FUNCTIONS / GLOBAL_PARAMETERS, dcbor tag-name lookup} on 1-4 generated envelopes (known values, tagged leaves, dates, expressions, requests / responses, elided / encrypted / compressed parts), each operation preceded by a generated busy-wait of 0-50 us, all threads released by one barrier; EVERY CASE RUNS IN ITS OWN CHILD PROCESS, so all threads race on first-use initialisation (a second class registers tags before the barrier). oracle: the child exits within the watchdog, every thread joins without panic (a poisoned lock shows up as a panic of a later caller), and every result equals the text the same call returns alone, computed in two reference child processes (never-registered / registered-first): equal to the unregistered reference if the program has no register_tags, to the registered one if registration completed before the barrier, to either if a register_tags is racing. Part B (separate build with bc-envelope/multithreaded): a generated envelope is shared by 2-16 threads which compute digest, bytes, structural digest, element count, format and tree format and clone/drop sub-envelopes; all must equal the single-thread values. non-trivial: >=3 threads with >=2 distinct operation kinds; distinct by FNV-64 of the program; after a closing barrier each thread repeats one formatting call, which must equal the reference of the final registry state exactly; envelopes may hold array / map leaves whose elements are tagged values with summarizers (panicking date, key bundles, custom tag); one format call in four builds its envelope in place from typed values at the moment of the call; function / parameter lookups also render the value with Display while the registry guard is held",
         assumptions: &[
             "WEAK: schedules are sampled (jitter + fresh-process repetition), not enumerated; the harness does not own the scheduler and the locks of dcbor::GLOBAL_TAGS live in a dependency",
             "a child that does not finish within 20 s is a violation only if two /proc samples 1 s apart show every thread sleeping with no CPU time consumed (deadlock); otherwise the run is inconclusive (exit 2)",
@@ -167,14 +167,23 @@ pub fn run_step(e: &Envelope, s: &Step) -> String {
             store.name(KnownValue::new(vals[s.arg % vals.len()]))
         }
         9 => {
+            let f = Function::from([1u64, 2, 3, 4, 5, 99, 12, 0][s.arg % 8]);
             let b = bc_envelope::functions::GLOBAL_FUNCTIONS.get();
             let store = b.as_ref().unwrap();
-            store.name(&Function::from([1u64, 2, 3, 4, 5, 99, 12, 0][s.arg % 8]))
+            // the value's own Display is used while the registry is being consulted, and again afterwards
+            let shown = format!("{}", f);
+            let name = store.name(&f);
+            drop(b);
+            format!("{} / {} / {}", name, shown, f)
         }
         10 => {
+            let p = Parameter::from([1u64, 2, 3, 4, 5, 99, 12, 0][s.arg % 8]);
             let b = bc_envelope::parameters::GLOBAL_PARAMETERS.get();
             let store = b.as_ref().unwrap();
-            store.name(&Parameter::from([1u64, 2, 3, 4, 5, 99, 12, 0][s.arg % 8]))
+            let shown = format!("{}", p);
+            let name = store.name(&p);
+            drop(b);
+            format!("{} / {} / {}", name, shown, p)
         }
         13 => {
             // a caller-owned context: register the standard tags in it and format with it. Touches no global
@@ -421,7 +430,15 @@ fn parse_results(lines: &[String]) -> BTreeMap<(usize, usize), Vec<(char, String
     m
 }
 
+/// Set once a deadlock has been seen in this process: every further evaluation would cost 20 s or more
+/// per child process (shrinking a deadlocking program can take hours), so the search stops evaluating and
+/// the program that deadlocked is reported as it is.
+static DEADLOCK_SEEN: std::sync::atomic::AtomicBool = std::sync::atomic::AtomicBool::new(false);
+
 pub fn run(data: &[u8], ctx: &mut Ctx) -> Outcome {
+    if DEADLOCK_SEEN.load(std::sync::atomic::Ordering::SeqCst) {
+        return Outcome::Pass;
+    }
     let prog = decode_program(data);
     let hexp = hex::encode(data);
     ctx.fingerprint(data);
@@ -457,7 +474,10 @@ pub fn run(data: &[u8], ctx: &mut Ctx) -> Outcome {
         for mode in ["solo-unreg", "solo-reg", "solo-unreg-custom", "solo-reg-custom"] {
             match run_child(mode, &hexp) {
                 ChildResult::Done(lines) => v.push(parse_results(&lines)),
-                ChildResult::Deadlock => return fail(ctx, "reference", "C20/solo-deadlock", format!("the {} reference run (one thread) deadlocked", mode)),
+                ChildResult::Deadlock => {
+                    DEADLOCK_SEEN.store(true, std::sync::atomic::Ordering::SeqCst);
+                    return fail(ctx, "reference", "C20/solo-deadlock", format!("the {} reference run (one thread) deadlocked", mode));
+                }
                 ChildResult::Inconclusive(why) => {
                     eprintln!("harness: C20 inconclusive: {}", why);
                     std::process::exit(2);
@@ -468,7 +488,10 @@ pub fn run(data: &[u8], ctx: &mut Ctx) -> Outcome {
     };
     let race = match run_child("race", &hexp) {
         ChildResult::Done(lines) => lines,
-        ChildResult::Deadlock => return fail(ctx, "completion", "C20/deadlock", "the thread program did not complete: every thread is asleep and consumes no CPU (deadlock)".into()),
+        ChildResult::Deadlock => {
+            DEADLOCK_SEEN.store(true, std::sync::atomic::Ordering::SeqCst);
+            return fail(ctx, "completion", "C20/deadlock", "the thread program did not complete: every thread is asleep and consumes no CPU (deadlock)".into());
+        }
         ChildResult::Inconclusive(why) => {
             eprintln!("harness: C20 inconclusive: {}", why);
             std::process::exit(2);
